@@ -60,14 +60,21 @@ Definition has_enum (p : proj) : bool := existsb (fun d => match d with DEnum _ 
 (* the enum class (Zod-mode enums without a type alias) was repaired: TgEnumAlias is never allowed *)
 Definition allowed_for_proj (p : proj) : list tag :=
   add_tags (flat_map allowed_for_type (member_types p)) [].
+(* findings allowed per key (named Item.key as in v_keys), from the type written at that key *)
+Definition allowed_keys (p : proj) : list (str * list tag) :=
+  flat_map (fun d => match d with
+                     | DStruct s => map (fun f => (s_name s ++ L "." ++ key_text (mk_key (m_key f)), allowed_for_type (m_ty f))) (s_fields s)
+                     | DEnum _ => [] end) (p_types p) ++
+  flat_map (fun c => map (fun f => (params_name c ++ L "." ++ key_text (mk_key (m_key f)), allowed_for_type (m_ty f))) (c_params c)) (p_cmds p).
 Definition proj_dom (p : proj) : bool :=
-  map_ok (p_map p) && forallb dom (member_types p) &&
+  map_wide (p_map p) && forallb dom (member_types p) &&
   forallb (fun c => forallb (fun ch => dom (snd ch)) (c_chans c)) (p_cmds p).
 
 Definition sx_tag (t : tag) : sx := SA (L (tag_name t)).
 Definition sx_tags (l : list tag) : sx := SL (map sx_tag l).
 Definition sx_verdict (v : verdict) : sx :=
-  SL [sx_tags (v_tags v); SL (map (fun p => SL [SA (fst p); sx_tags (snd p)]) (v_detail v))].
+  SL [sx_tags (v_tags v); SL (map (fun p => SL [SA (fst p); sx_tags (snd p)]) (v_detail v));
+      SL (map (fun p => SL [SA (fst p); sx_tags (snd p)]) (v_keys v))].
 
 (* project level: the model's items against the parsed implementation modules, and the oracle on
    the implementation's modules.
@@ -85,16 +92,17 @@ Definition c10_project_sx (p : proj) (plain_text zod_text : str) : sx :=
       sx_tags (v_tags mv);
       (match pm, zm with
        | Some a, Some b => sx_verdict (compare_modules a b)
-       | _, _ => sx_verdict {| v_tags := [TgParse]; v_detail := [] |} end);
+       | _, _ => sx_verdict {| v_tags := [TgParse]; v_detail := []; v_keys := [] |} end);
       sx_tags (allowed_for_proj p);
-      sx_bool (proj_dom p)].
+      sx_bool (proj_dom p);
+      SL (map (fun a => SL [SA (fst a); sx_tags (snd a)]) (allowed_keys p))].
 
 (* type level: one type t placed as field f of struct S, as parameter p of commands c (parameter
    only) and d (parameter and a channel), as the channel of command e; command u takes S (and the
    enum K and the member-less struct Z when requested) so that they are emitted. [ct] is the structure the implementation read
    from the channel's message type text. *)
 Definition tcase_proj (m : mapping) (t : tstruct) (opt : bool) (with_enum with_unit : bool) (ct : tstruct)
-    (fk pk ck lit : str) : proj :=
+    (fk pk ck lit : str) (extra : list cdef) : proj :=
   let mem := {| m_key := pk; m_opt := opt; m_ty := t |} in
   {| p_types := [DStruct {| s_name := L "S"; s_fields := [{| m_key := fk; m_opt := opt; m_ty := t |}] |}] ++
                 (if with_enum then [DEnum {| e_name := L "K"; e_variants := [L "A"; lit] |}] else []) ++
@@ -105,7 +113,7 @@ Definition tcase_proj (m : mapping) (t : tstruct) (opt : bool) (with_enum with_u
                 {| c_tname := L "U"; c_params := {| m_key := L "s"; m_opt := false; m_ty := TCustom (L "S") |} ::
                                                   (if with_enum then [{| m_key := L "k"; m_opt := false; m_ty := TCustom (L "K") |}] else []) ++
                                                   (if with_unit then [{| m_key := L "z"; m_opt := false; m_ty := TCustom (L "Z") |}] else []);
-                   c_chans := [] |}];
+                   c_chans := [] |}] ++ extra;
      p_map := m |}.
 
 (* the five strings of the model with, for each, whether the specification parser reads the model's
@@ -129,5 +137,5 @@ Definition c10_string_oracle_sx (plain_s ziface_s zfield_s zparam_s : str) : sx 
   | _, _, _, _ => SL [sx_bool false; sx_tags [TgParse]; sx_tags [TgParse]]
   end.
 
-Definition c10_dom (m : mapping) (t : tstruct) : bool := map_ok m && dom t.
+Definition c10_dom (m : mapping) (t : tstruct) : bool := map_wide m && dom t.
 Definition c10_structure (r : rty) : option tstruct := Some (structure_of r).
